@@ -7,7 +7,19 @@ is run through  patch_lines(old, patches_from_ed_script(script))  as str and as 
 old == new.  For the pairs of the length <= 3 universe every command line of every script is replaced by
 each of eight malformed commands, and every script is cut at every point inside a text block; each of
 these must raise ValueError.
+
+Input kinds: patches_from_ed_script takes an Iterable of lines and reads it through iter().  Every script of the base
+space whose two lists have length <= 3, and every script of the 'long' space, is supplied again as a tuple, as
+iter(list), as a generator, as io.StringIO / io.BytesIO of the joined text and as an open (temporary) file positioned at
+its start - the last four can be read once only; the result must be the same target lines.  The corrupted / truncated
+scripts are supplied again in every kind for lists of length <= 2 and as iter(list) and io stream for length 3; each must
+still raise ValueError.  A failure that the list form of the same script shows too is left to the list case; one that
+only the other kind shows is reported as ed/input-kind/<kind>/...
 """
+import io
+import os
+import tempfile
+
 from .. import core
 from ..models import edscript
 
@@ -18,7 +30,8 @@ RULE = ("states = (old, new) pairs of the pair trie visited, plus the corrupted 
         "command / text-block state machine); traces = complete scripts executed on the implementation (str and "
         "bytes counted separately); non-trivial = valid scripts with at least two commands (adjacent or multiple "
         "hunks, where bottom-up order matters) and corruptions / truncations that hit a command other than the "
-        "first (the reader is mid-stream)")
+        "first (the reader is mid-stream); every other input kind of a script (tuple, iterator, generator, io stream, "
+        "open file) is a further trace per type over the same state, non-trivial by the same rule")
 BUDGET = {"quick": 240, "thorough": 3000}
 
 LOOKALIKES = ["..\n", ". \n"]
@@ -32,6 +45,10 @@ BADS = [("garbage", "x\n"), ("unknown-command", "1z\n"), ("non-numeric-range", "
 MAXLEN = {"quick": 4, "thorough": 5}
 EXT_MAXLEN = 3
 CORRUPT_MAXLEN = 3
+KINDS = ["tuple", "iter", "generator", "stream", "file"]        # besides "list"
+KINDS_FEW = ["iter", "stream"]
+KIND_MAXLEN = 3
+KIND_CORRUPT_ALL_MAXLEN = 3
 
 selfcheck_result = None
 
@@ -55,6 +72,9 @@ def bounds(tier):
             "scripts": "edscript.diff for every pair; diff -e for every pair when /usr/bin/diff exists (executed on the "
                        "implementation when it differs textually from the model's script)",
             "types": ["str", "bytes"],
+            "input_kinds": "list everywhere; %r for every valid script of the base space with both lists of length <= %d "
+                           "and of the long space; corrupted / truncated scripts: all of these kinds for lists of length "
+                           "<= %d, %r for length <= %d" % (KINDS, KIND_MAXLEN, KIND_CORRUPT_ALL_MAXLEN, KINDS_FEW, CORRUPT_MAXLEN),
             "corruptions": "pairs of length <= %d of the base space: every command line x %r; every cut inside a text "
                            "block" % (CORRUPT_MAXLEN, [b for _, b in BADS])}
 
@@ -67,6 +87,11 @@ def assumptions():
             "content lines that merely look like commands ('1d', '2a', '1,2c', '0a') or resemble the terminator ('...', '.x', "
             "' .') are ordinary lines of the files (second look-alike space, model script only); only a line that is "
             "exactly '.' is excluded",
+            "patches_from_ed_script is declared for an Iterable of lines and reads it with iter(source): a tuple, an "
+            "iterator, a generator, an io.StringIO / io.BytesIO and an open file (iterating them gives the lines with their "
+            "line ends) are all inside the domain and work on the unchanged library; 'open file' is an anonymous temporary "
+            "file (text mode UTF-8 / binary mode) written, flushed and positioned at 0; a bare str / bytes object is not a "
+            "script (iterating it gives characters / ints)",
             "edscript.diff / edscript.apply are self-checked on the length <= 3 universe and every diff -e script used is "
             "first validated by edscript.apply"]
 
@@ -175,24 +200,61 @@ def _first_bad_form(old, script, conv):
     return "none"
 
 
-def _one(case, binary):
-    """-> None or (sig, expected, observed) for one type"""
+_SCRATCH = {}
+
+
+def _scratch(binary):
+    """one anonymous temporary file per process and type (nothing is left on disk); a forked worker opens its own"""
+    key = (os.getpid(), binary)
+    if key not in _SCRATCH:
+        _SCRATCH[key] = tempfile.TemporaryFile("w+b") if binary else tempfile.TemporaryFile("w+", encoding="utf-8")
+    return _SCRATCH[key]
+
+
+def make_source(kind, lines, binary):
+    """the script `lines` (list of str or of bytes) as the input kind `kind`"""
+    if kind == "list":
+        return lines
+    if kind == "tuple":
+        return tuple(lines)
+    if kind == "iter":
+        return iter(lines)
+    if kind == "generator":
+        return (l for l in lines)
+    nl, cr = (b"\n", b"\r") if binary else ("\n", "\r")
+    assert all(l.endswith(nl) and l.count(nl) == 1 and cr not in l for l in lines), lines
+    text = (b"" if binary else "").join(lines)
+    if kind == "stream":
+        return io.BytesIO(text) if binary else io.StringIO(text)
+    assert kind == "file", kind
+    f = _scratch(binary)
+    f.seek(0)
+    f.truncate(0)
+    f.write(text)
+    f.flush()
+    f.seek(0)
+    return f
+
+
+def _one(case, binary, kind="list"):
+    """-> None or (sig, expected, observed) for one type and one input kind"""
     from debian.debian_support import patches_from_ed_script, patch_lines
     conv = _conv(binary)
     lines = conv(case["old"])
-    kind = case["kind"]
+    what = case["kind"]
+    source = make_source(kind, conv(case["script"]), binary)
     try:
-        patch_lines(lines, patches_from_ed_script(conv(case["script"])))
+        patch_lines(lines, patches_from_ed_script(source))
     except ValueError as e:
-        if kind == "apply":
+        if what == "apply":
             return ("ed/apply/raises-ValueError", conv(case["new"]), "ValueError: %s" % (e,))
         return None
     except Exception as e:  # anything the code under test may raise besides ValueError
         name = type(e).__name__
-        if kind == "apply":
+        if what == "apply":
             return ("ed/apply/raises-%s" % name, conv(case["new"]), "%s: %s" % (name, e))
         return ("ed/%s/raises-%s" % (case["what"], name), "ValueError", "%s: %s" % (name, e))
-    if kind == "apply":
+    if what == "apply":
         want = conv(case["new"])
         if lines != want:
             return ("ed/apply/%s/wrong-result" % _first_bad_form(case["old"], case["script"], conv), want, lines)
@@ -200,10 +262,21 @@ def _one(case, binary):
     return ("ed/%s/accepted" % case["what"], "ValueError", "no exception; lines = %r" % (lines,))
 
 
+def _one_kind(case, binary, kind):
+    r = _one(case, binary, kind)
+    if r is None or kind == "list":
+        return r
+    ref = _one(case, binary, "list")
+    if ref is not None and ref[0] == r[0]:
+        return None                 # the list form of the same script fails the same way: reported by the list case
+    return ("ed/input-kind/%s/%s" % (kind, r[0][3:]), "%r, as for the same script given as a list" % (r[1],), r[2])
+
+
 def exec_case(case):
     """-> list of (sig, expected, observed); [] = passes.  Shared by run_unit and replay."""
-    rs = _one(case, False)
-    rb = _one(case, True)
+    kind = case.get("via", "list")
+    rs = _one_kind(case, False, kind)
+    rb = _one_kind(case, True, kind)
     if rs is None and rb is None:
         return []
     if rs is not None and rb is not None and rs[0] == rb[0]:
@@ -283,11 +356,25 @@ def run_unit(u, tier, seed):
                 run(case, "applied:" + ("+".join(forms) or "(empty script)"), len(forms) >= 2)
                 if idx in (1, len(news) // 2, len(news) - 1) and src == "model":
                     part.sample(case)
+                small = u["space"] == "base" and len(old) <= KIND_MAXLEN and len(new) <= KIND_MAXLEN
+                if small or u["space"] == "long":
+                    for kind in KINDS:
+                        run(dict(case, via=kind), "via %s: applied, %s" % (
+                            kind, "no command" if not forms else "one command" if len(forms) == 1 else "several commands"),
+                            len(forms) >= 2)
+                        part.extra["valid scripts given as another input kind"] += 1
+                    if idx == len(news) // 2 and src == "model":
+                        part.sample(dict(case, via="stream"))
                 if u["space"] == "base" and len(old) <= CORRUPT_MAXLEN and len(new) <= CORRUPT_MAXLEN:
+                    tiny = len(old) <= KIND_CORRUPT_ALL_MAXLEN and len(new) <= KIND_CORRUPT_ALL_MAXLEN
                     for dcase, k, form in _derived(old, new, script, src):
                         part.states += 1
                         run(dcase, "rejected:%s@%s-command:%s" % (dcase["what"], "first" if k == 0 else "later", form), k > 0)
                         part.extra["corrupted or truncated scripts"] += 1
+                        for kind in (KINDS if tiny else KINDS_FEW):
+                            run(dict(dcase, via=kind), "via %s: rejected:%s@%s-command" % (
+                                kind, dcase["what"].split("/")[0], "first" if k == 0 else "later"), k > 0)
+                            part.extra["corrupted or truncated scripts given as another input kind"] += 1
     finally:
         if differ is not None:
             differ.close()
@@ -299,16 +386,26 @@ def replay(case):
 
 
 def repro_py(case):
-    return ("from debian.debian_support import patches_from_ed_script, patch_lines\n"
+    return ("import io, tempfile\n"
+            "from debian.debian_support import patches_from_ed_script, patch_lines\n"
             "case = %r\n"
-            "for conv in (list, lambda ls: [l.encode('utf-8') for l in ls]):\n"
+            "def source(lines, binary, kind=case.get('via', 'list')):\n"
+            "    if kind in ('stream', 'file'):\n"
+            "        text = (b'' if binary else '').join(lines)\n"
+            "        if kind == 'stream':\n"
+            "            return io.BytesIO(text) if binary else io.StringIO(text)\n"
+            "        f = tempfile.TemporaryFile('w+b') if binary else tempfile.TemporaryFile('w+', encoding='utf-8')\n"
+            "        f.write(text); f.flush(); f.seek(0)\n"
+            "        return f\n"
+            "    return {'list': list, 'tuple': tuple, 'iter': iter, 'generator': lambda ls: (l for l in ls)}[kind](lines)\n"
+            "for binary, conv in ((False, list), (True, lambda ls: [l.encode('utf-8') for l in ls])):\n"
             "    lines = conv(case['old'])\n"
             "    if case['kind'] == 'apply':\n"
-            "        patch_lines(lines, patches_from_ed_script(conv(case['script'])))\n"
+            "        patch_lines(lines, patches_from_ed_script(source(conv(case['script']), binary)))\n"
             "        assert lines == conv(case['new']), lines\n"
             "    else:\n"
             "        try:\n"
-            "            patch_lines(lines, patches_from_ed_script(conv(case['script'])))\n"
+            "            patch_lines(lines, patches_from_ed_script(source(conv(case['script']), binary)))\n"
             "        except ValueError:\n"
             "            continue\n"
             "        raise AssertionError('malformed script accepted; lines = %%r' %% (lines,))\n" % (case,))
